@@ -72,7 +72,25 @@ CLAIM = {
             'correspondence / oracle only (theorems already hold for all sizes; the model has no types, object identity or '
             'serialisation). Not applicable: negative indices (not documented), save/load and to_dict/from_dict round trips '
             '(the cell package has none), *_in_dB variants, dict / set containers of results (cells and users are lists '
-            'whose order IS documented).',
+            'whose order IS documented). Third list: R15 (distinct values that are merely close: setter values a relative '
+            '1e-6 .. 1e-7 from the current ones and, at scales 1e-9 .. 1e-15, factors 2 .. 3 apart; ratios next to 0 and 1 and '
+            'just outside [0, 1]; directions 3e-9 .. 1e-6 degrees apart and adjacent doubles, compared at 1e-12; query points '
+            '3e-9 .. 1e-7 of the size on either side of an edge; min_dist_ratio 0 vs 1e-300 .. 1e-6 and 1e-6 on either side of a '
+            'candidate; clusters of one size built in succession with close radii / rotations / positions; thin annuli and '
+            'tiny radii of the point processes) by theorems on the model (setter_takes_effect_for_every_new_value, '
+            'distinct_values_distinct_cells, border_ratio_compared_exactly, cluster_cache_lookup_exact: the class-level cache '
+            'Cluster._normalized_cell_positions is part of the model) AND by correspondence + first-principles oracles (border '
+            'points by bisection on membership in the polygon of the definition). R16 (argument identity and buffer reuse: ONE '
+            'ndarray / list / 0-d array refilled in place between 2-4 calls of calc_rotated_pos, '
+            'from_complex_array_to_real_matrix, add_border_user on Cell / Cell3Sec / CellSquare, Cluster.add_border_users / '
+            'add_random_users / delete_all_users, get_border_point / is_point_inside_shape; one array as angles AND ratios, as '
+            'cell ids AND numbers of users; arguments overwritten right after the call; results kept and compared after later '
+            'calls) by theorem for the placement histories (placement_history_depends_on_contents_only, '
+            'kth_call_equals_fresh_call) AND by correspondence + oracles; the model takes values, so identity of an argument '
+            'object is otherwise a fact about the tie. Not applicable to R16: Node objects handed to add_user and the cell '
+            'handed to CellWrap are kept by reference by design; the point processes take no array arguments. Every oracle '
+            'call has a wall-clock limit (a containment test that rejects every candidate makes the library\'s rejection loop '
+            'endless: reported as `does-not-return` with the input).',
 }
 
 TOL = 1e-9
@@ -2020,14 +2038,46 @@ ORACLES = {'vertices': o_vertices, 'is_point_inside_shape': o_contains, 'get_bor
            'Cluster.outline': o_cluster_outline}
 
 
+class Runaway(Exception):
+    """a call of the library did not return (rejection sampling that never accepts, …)"""
+
+
+@contextlib.contextmanager
+def time_limit(seconds):
+    """wall-clock limit for ONE oracle / correspondence group: the library's rejection loop `while not inside …`
+    draws from the global numpy generator in the seeded cases and never ends when a containment test is broken
+    in a way that rejects every candidate; such a run must end with the failing input, not hang"""
+    import signal
+
+    def handler(signum, frame):
+        raise Runaway('no result after %d s' % seconds)
+    try:
+        old = signal.signal(signal.SIGALRM, handler)
+    except ValueError:          # not in the main thread: no limit
+        yield
+        return
+    signal.alarm(seconds)
+    try:
+        yield
+    finally:
+        signal.alarm(0)
+        signal.signal(signal.SIGALRM, old)
+
+
+ORACLE_TIME_LIMIT = 60
+
+
 def run_oracle(ctx, call, case, key=None, nontrivial=True):
     """`case['tag']` (the robustness class the input was generated for, e.g. `R5:rotation-multiple-of-90`) becomes
     part of the failure class"""
     ctx.count((call, key if key is not None else repr(case)), nontrivial)
     try:
-        r = ORACLES[call](case)
+        with time_limit(ORACLE_TIME_LIMIT):
+            r = ORACLES[call](case)
     except StreamEnd:
         r = None
+    except Runaway as e:
+        r = ('does-not-return', 'the call did not return: %s' % e)
     except Exception as e:
         r = ('exception:' + type(e).__name__, repr(e)[:300])
     if r is not None and isinstance(case, dict) and case.get('tag'):
@@ -2042,9 +2092,19 @@ def run_oracle(ctx, call, case, key=None, nontrivial=True):
     return r
 
 
+def _r1516():
+    """the helper module with the classes R15 (close values) and R16 (argument identity / buffer reuse)"""
+    from harness.props import c19_r1516
+    for k_, v_ in c19_r1516.ORACLES.items():
+        ORACLES.setdefault(k_, v_)
+    return c19_r1516
+
+
 def replay(ctx, rep):
+    _r1516()
     try:
-        return ORACLES[rep['call']](rep['case']) is not None
+        with time_limit(ORACLE_TIME_LIMIT):
+            return ORACLES[rep['call']](rep['case']) is not None
     except StreamEnd:
         return False
     except Exception:
@@ -4143,7 +4203,8 @@ def guarded(ctx, name, fn, *args):
     """run one correspondence group; an exception of the LIBRARY in there is not an infrastructure failure: the
     correspondence is recorded as broken and the oracles / the search produce the concrete failing input"""
     try:
-        fn(ctx, *args)
+        with time_limit(4 * ORACLE_TIME_LIMIT if ctx.tier == 'quick' else 3600):
+            fn(ctx, *args)
     except core.Infra:
         raise
     except Exception as e:
@@ -4167,6 +4228,8 @@ def correspondence(ctx, nshapes, nq, nusers, cluster_cases, ndist, npp, nhist):
     guarded(ctx, 'clusters', corr_clusters, drv, cluster_cases)
     guarded(ctx, 'distm', corr_distm, drv, ndist)
     guarded(ctx, 'pp', corr_pp, drv, npp)
+    guarded(ctx, 'close-values', _r1516().close_corr, drv)
+    guarded(ctx, 'buffer-reuse', _r1516().buffer_corr, drv)
 
 
 # ------------------------------------------------------------------ oracle runs
@@ -4241,6 +4304,8 @@ def oracles(ctx, nshapes, nq, nusers, cluster_cases, ndist, npp, nhist):
             case['draws'] = None
             case['npseed'] = ctx.rng.below(2 ** 31)
         run_oracle(ctx, 'pointprocess', case, key=('pp', repr(case)[:200]))
+    _r1516().close_oracles(ctx)
+    _r1516().buffer_oracles(ctx)
 
 
 def cluster_cases_for(ctx, nrot):
@@ -4309,6 +4374,7 @@ def check(ctx):
                              'R10:heterogeneous', 'R11:queries-and-plots', 'R12:insertion-order', 'R13:derived-objects',
                              'R14:counts', 'R8:corr:keyword', 'R8:corr:setter-path', 'R13:corr:deepcopy', 'R10:corr:heterogeneous',
                              'R9:corr:index>256', 'R12:corr:insertion-order', 'R14:corr:counts', 'R11:queries-in-history']
+    ctx.required_branches += _r1516().REQUIRED
     cases = cluster_cases_for(ctx, nrot)
     try:
         correspondence(ctx, nshapes, nq, nusers, cases, ndist, npp, nhist)
